@@ -67,6 +67,12 @@ PROP = {  # subject keyword -> (property, failing input)
  "an approximated group's jacobian holds only its semi-total blocks": ('C01', 'approx_totals group containing implicit / sparse / matrix-free components: wrong totals under non-assembled DirectSolver / ScipyKrylov, LinearBlockGS non-convergence, 0 instead of -0.5 for entries outside a declared dR/dx pattern (props/C01/repro_2.py)'),
  'check_partials approximation of a coo partial with repeated positions': ('C13', 'y = 3x with a scipy coo partial repeating a position ([0,0,1],[0,0,1]): J_fd = [[6,0],[0,3]], abs error 3 for a correct component'),
  'ImplicitFuncComp orders reverse-mode jacobian blocks of states by output': ('C34', 'ImplicitFuncComp, jax partials in reverse direction, states s0, s1 given in the signature as (s1, s0): the two state column blocks are exchanged (partial[1,3] = 1.0428, exact 0.0)'),
+ 'fixed-grid interpolators accept a single-point call after a vectorized call': ('C15', "2D-slinear, g=arange(6): interpolate([[1.3,2.6],[2.2,3.1]]) then interpolate([[1.3,2.6]]) on the same InterpND: TypeError 'set' object is not subscriptable (1D-* classes: ValueError truth value of an array)"),
+ 'akima smoothed-abs derivative broadcast for tables of three or more dimensions': ('C16', "akima, delta_x=0.1, 6x6x6 table, interpolate([[1.3,2.6,0.7]], compute_derivative=True): TypeError 'numpy.float64' object does not support item assignment"),
+ 'colored approx_totals seed variables with indexed design variables': ('C24', "model.approx_totals('fd') + declare_coloring, ya=3x (x size 4, desvar indices=[1,3]), yb=5z, f=w*w: d yb/dz = 0 and df/dw = 0 with relevance on (5*I and 6 with OPENMDAO_NO_RELEVANCE=1)"),
+ 'approx_totals with negative design variable indices': ('C01', "model.approx_totals('fd'), d.z size 2 with desvar indices=[-1], yb = diag(-3,2) z: d yb[1]/dz[-1] = 0 instead of 2"),
+ 'load_case sets automatic sources, sub-group cases and cases with discrete variables': ('C19', "c: y = 2*x, x in cm promoted, set_input_defaults('x', units='m'), x = 5 m: after load_case get_val('x', units='m') = 0.05 (recorded 5), rerun y = 10 (recorded 1000); src_indices=[0,2] into a size-4 source: ValueError shape (4,) does not match (2,); sub-group-only recorder: top-level y overwritten from g.c.y; discrete variables: promoted inputs not loaded"),
+ 'system and solver cases record physical values': ('C19', "add_output('y', ref=100), x = 5: a system / solver case holds c.y = 0.1 (problem / driver case: 10); load_case restores 0.1, rerun gives 10"),
  'func components with a single scalar output and a forward jax coloring': ('C34', "ExplicitFuncComp / ImplicitFuncComp with one output of shape () and a forward jax coloring: IndexError 'tuple index out of range'"),
  'check_partials works on private copies': ('C13', "check_partials(method='fd', step=[0.5, 0.25]) on a dense partial: J_fd[0] is J_fd[1] (last step's values); constant val= partials overwritten by the approximation (second check reports zero error, compute_totals returns 2 instead of 5)"),
  'InterpND.gradient returns the derivative at the point': ('C16', 'akima 2-D table: interpolate(x); gradient(x) returns np.empty garbage for sub-dimensions ([[-2.127, 0.]] instead of [[-2.127, -2.983]]); gradient(x) after an in-place change of x returns the old gradient'),
